@@ -34,8 +34,11 @@ def use_fakepd():
 class FakeCfg:
     """stands in for Config at the Cluster/Buffer constructor boundary (no file I/O)"""
 
-    def __init__(self, n=3, cpus=None, bws=None, hot=None, cold=None):
-        self.n, self.cpus, self.bws, self.hot, self.cold = n, cpus, bws, hot, cold
+    def __init__(self, n=3, cpus=None, bws=None, hot=None, cold=None, instrument=None):
+        self.n, self.cpus, self.bws, self.hot, self.cold, self.instrument = n, cpus, bws, hot, cold, instrument
+
+    def parse_instrument_config(self, name):
+        return self.instrument            # (total_arrays, pipelines, observations, max_ingest)
 
     def parse_cluster_config(self):
         return [Machine(f"m{i}", (self.cpus or [10] * self.n)[i], 1, 1, (self.bws or [10] * self.n)[i]) for i in range(self.n)], 1
